@@ -77,14 +77,14 @@ var (
 
 // Gen holds the state of one generation.
 type Gen struct {
-	R  *Rng
-	K  Knobs
-	C  CfgSpec
-	by map[Ty][]string // variable names by type
-	cb map[Ty][]string // constant names by type
-	ob map[Ty][]int    // pure/now op indices by return type
-	fl []int           // failing op indices
-	left int           // nodes left in the current program's budget
+	R    *Rng
+	K    Knobs
+	C    CfgSpec
+	by   map[Ty][]string // variable names by type
+	cb   map[Ty][]string // constant names by type
+	ob   map[Ty][]int    // pure/now op indices by return type
+	fl   []int           // failing op indices
+	left int             // nodes left in the current program's budget
 }
 
 // NewGen draws a configuration (variables, constants, user operators).
